@@ -14,14 +14,16 @@ import copy
 import hashlib
 import json
 import math
+import struct
 from fractions import Fraction
 
 from harness.common import exc_name
 
 PID = "C06"
 TITLE = "Histogram fill puts every value into exactly the right cell and conserves weight"
-LEAN_MODULES = ["LenaModel.Props.C06"]
-LEAN_SOURCES = ["LenaModel/Model/C06.lean", "LenaModel/Lemmas/C06.lean", "LenaModel/Props/C06.lean"]
+LEAN_MODULES = ["LenaModel.Props.C06", "LenaModel.Props.C06Ext"]
+LEAN_SOURCES = ["LenaModel/Model/C06.lean", "LenaModel/Model/C06Spec.lean", "LenaModel/Lemmas/C06.lean",
+                "LenaModel/Lemmas/C06Ext.lean", "LenaModel/Props/C06.lean", "LenaModel/Props/C06Ext.lean"]
 DRIVER = "drivers/C06.lean"
 THEOREMS = [
     "Lena.C06.bin1d_spec",
@@ -46,6 +48,26 @@ THEOREMS = [
     "Lena.C06.mkHist_valid",
     "Lena.C06.mkHist_invalid",
     "Lena.C06.mkHist_bins",
+    "Lena.C06.mkHist_bins_wf",
+    "Lena.C06.bin1d_ok_or_unmodelled",
+    "Lena.C06.bin1d_of_visitedInRange",
+    "Lena.C06.visitedInRange_of_guessOKAt",
+    "Lena.C06.guessOKAtB_iff",
+    "Lena.C06.bin1d_of_guessOKAtB",
+    "Lena.C06.bin1d_float",
+    "Lena.C06.roundedGuess_in_range",
+    "Lena.C06.bin1d_rounded",
+    "Lena.C06.getBinOnValue_ok_or_unmodelled",
+    "Lena.C06.fill_ok_or_unmodelled",
+    "Lena.C06.fill_eq_specFill",
+    "Lena.C06.fillAll_eq_specFillAll",
+    "Lena.C06.cellOf?_eq_some_iff",
+    "Lena.C06.properList?_iff",
+    "Lena.C06.wfB_iff",
+    "Lena.C06.initBinsD_eq",
+    "Lena.C06.histEl2_new_both",
+    "Lena.C06.histEl2_reset_fresh",
+    "Lena.C06.histEl2_run_conserved",
     "Lena.C06.elem_fill_exact_cell",
     "Lena.C06.elem_fill_out_of_range",
     "Lena.C06.elem_weight_conserved",
@@ -257,7 +279,7 @@ def gen_bin1d_case(rng, tier):
         rest = [p for p in pool if p not in xs]
         rng.shuffle(rest)
         pool = keep + rest[:70 - len(keep)]
-    return {"op": "bin1d", "arr": xs, "vals": pool, "fam": fam}
+    return {"op": "bin1d", "arr": xs, "vals": pool, "fam": fam, "full": n <= 12 and rng.random() < 0.5}
 
 
 def _dims_for(rng, tier):
@@ -291,7 +313,7 @@ def gen_hist_case(rng, tier, elem=False):
     case["bins"] = None
     if r < 0.12:
         case["init"] = rng.choice([7, -3, 2.5, 0.0])
-    elif r < 0.24 and not (dim == 1 and not flat):
+    elif r < 0.24:
         case["bins"] = _rand_bins(rng, shape)
     # malformed configurations (correspondence only)
     bad = None
@@ -391,19 +413,70 @@ def _rand_bins(rng, shape):
     return [_rand_bins(rng, shape[1:]) for _ in range(shape[0])]
 
 
+def gen_elem2_case(rng, tier):
+    """one Histogram element object with bins / make_bins / initial_value, re-used across reset()s"""
+    case = gen_hist_case(rng, tier, elem=True)
+    case["op"] = "elem2"
+    axes = _valid_axes(case["edges"])
+    case["mk"] = None
+    if axes is not None and case.get("bad") is None:
+        shape = [len(a) - 1 for a in axes]
+        r = rng.random()
+        case["bins"], case["init"] = None, 0
+        if r < 0.25:
+            case["init"] = rng.choice([0, 0, 7, -3, 2.5])
+        elif r < 0.5:
+            case["bins"] = _rand_bins(rng, shape)
+        elif r < 0.8:
+            case["mk"] = _rand_bins(rng, shape)
+            if rng.random() < 0.3:
+                case["init"] = 5               # ignored when make_bins is given
+        elif r < 0.86:
+            case["bins"], case["mk"] = _rand_bins(rng, shape), _rand_bins(rng, shape)     # LenaTypeError
+        elif r < 0.93:
+            case["mk"] = _rand_bins(rng, [shape[0] + 1] + shape[1:])                      # make_bins of a wrong shape
+        else:
+            case["bins"] = _rand_bins(rng, shape[:-1] + [shape[-1] + 1]) if len(shape) > 1 else _rand_bins(rng, shape + [2])
+    # resets: before some fills, and after the last one
+    fills = case["fills"]
+    k = rng.choice([0, 1, 1, 2, 2, 3])
+    for _ in range(k):
+        if fills:
+            f = fills[rng.randrange(len(fills))]
+            f["rb"] = f.get("rb", 0) + 1
+    case["ra"] = rng.choice([0, 0, 0, 1, 2])
+    return case
+
+
+def gen_initbins_case(rng, tier):
+    r = rng.random()
+    if r < 0.8:
+        dim = rng.choice([1, 1, 2, 3])
+        axes = [gen_axis(rng, rng.randint(2, 6), rng.choice(FAMILIES)) for _ in range(dim)]
+        edges = axes[0] if dim == 1 and rng.random() < 0.6 else axes
+    else:
+        edges = rng.choice([[], [5], [[]], [[1, 2], []], [[], [1, 2, 3]], [[1]], [[1, 2, 3], [4]], [3, 1], [[2, 1], [0, 0, 0]]])
+    return {"op": "initbins", "edges": edges, "init": rng.choice([0, 0, 1, -2, 2.5, 0.0]), "deep": rng.random() < 0.5}
+
+
 def gen_cases(ctx):
+    """a lazy stream; the kinds are interleaved so that every prefix is a fair sample"""
     rng = ctx.rng
     tier = ctx.tier
-    n_b, n_h, n_e = (300, 900, 160) if tier == "quick" else (9000, 34000, 5000)
-    cases = []
-    for _ in range(n_b):
-        cases.append(gen_bin1d_case(rng, tier))
-    for _ in range(n_h):
-        cases.append(gen_hist_case(rng, tier))
-    for _ in range(n_e):
-        cases.append(gen_hist_case(rng, tier, elem=True))
+    n = 1500 if tier == "quick" else 50000
     ctx.exhaustive = False
-    return cases
+    for _ in range(n):
+        r = rng.random()
+        if r < 0.19:
+            yield gen_bin1d_case(rng, tier)
+        elif r < 0.80:
+            yield gen_hist_case(rng, tier)
+        elif r < 0.87:
+            yield gen_hist_case(rng, tier, elem=True)
+        elif r < 0.98:
+            yield gen_elem2_case(rng, tier)
+        else:
+            yield gen_initbins_case(rng, tier)
 
 
 # ----------------------------------------------------------------------------------------
@@ -444,7 +517,7 @@ def run_impl(case):
                 out.append({"e": exc_name(e)})
         return {"r": out}
     edges = copy.deepcopy(case["edges"])
-    bins = copy.deepcopy(case["bins"])
+    bins = copy.deepcopy(case.get("bins"))
     if op == "hist":
         try:
             if bins is None and case["init"] == 0 and isinstance(case["init"], int):
@@ -453,7 +526,7 @@ def run_impl(case):
                 h = ls.histogram(edges, bins, case["init"]) if bins is None else ls.histogram(edges, bins)
         except Exception as e:
             return {"e": exc_name(e), "phase": "init"}
-        res = {"bins0": _sc_nested(h.bins), "oor0": _scaled(h.n_out_of_range), "steps": []}
+        res = {"bins0": _sc_nested(h.bins), "oor0": _scaled(h.n_out_of_range), "steps": [], "dim": h.dim}
         for f in case["fills"]:
             c = _coord(f["c"])
             try:
@@ -520,6 +593,61 @@ def run_impl(case):
         return {"bins": _sc_nested(h.bins), "oor": _scaled(h.n_out_of_range),
                 "ctx": cx.get("k") if isinstance(cx, dict) else "not-a-dict",
                 "edges_same": h.edges == case["edges"]}
+    if op == "initbins":
+        try:
+            b = hf.init_bins(copy.deepcopy(case["edges"]), case["init"], deepcopy=case["deep"])
+        except Exception as e:
+            return {"e": exc_name(e)}
+        return {"bins": _sc_nested(b)}
+    if op == "elem2":
+        mk = copy.deepcopy(case["mk"])
+
+        def kwargs():
+            kw = {}
+            if case["bins"] is not None:
+                kw["bins"] = copy.deepcopy(case["bins"])
+            if mk is not None:
+                kw["make_bins"] = lambda: copy.deepcopy(mk)
+            if not (case["init"] == 0 and isinstance(case["init"], int)):
+                kw["initial_value"] = case["init"]
+            return kw
+        try:
+            el = ls.Histogram(edges, **kwargs())
+        except Exception as e:
+            return {"e": exc_name(e), "phase": "init"}
+        try:
+            for f in case["fills"]:
+                for _ in range(f.get("rb", 0)):
+                    el.reset()
+                c = _coord(f["c"])
+                if f.get("ctx") is not None:
+                    el.fill((c, {"k": f["ctx"]}))
+                else:
+                    el.fill(c)
+            for _ in range(case.get("ra", 0)):
+                el.reset()
+        except Exception as e:
+            return {"e": exc_name(e), "phase": "run"}
+        h, cx = getattr(el, "_hist", None), getattr(el, "_cur_context", None)
+        if h is None or cx is None:
+            ys = list(el.compute())
+            if len(ys) != 1:
+                return {"n_yield": len(ys)}
+            h, cx = ys[0]
+        res = {"bins": _sc_nested(h.bins), "oor": _scaled(h.n_out_of_range),
+               "ctx": cx.get("k") if isinstance(cx, dict) else "not-a-dict",
+               "edges_same": h.edges == case["edges"]}
+        # reset() of the used element against a newly constructed one
+        try:
+            el.reset()
+            h2 = getattr(el, "_hist", None) or list(el.compute())[0][0]
+            new = ls.Histogram(copy.deepcopy(case["edges"]), **kwargs())
+            hn = getattr(new, "_hist", None) or list(new.compute())[0][0]
+            res["fresh"] = (_sc_nested(h2.bins) == _sc_nested(hn.bins)
+                            and _scaled(h2.n_out_of_range) == _scaled(hn.n_out_of_range))
+        except Exception as e:
+            res["fresh"] = {"e": exc_name(e)}
+        return res
     raise ValueError(op)
 
 
@@ -551,6 +679,25 @@ def guess_path(val, arr):
     return out
 
 
+def guess_full(val, arr):
+    """the interpolation guess at EVERY state at which `GuessOKAt` speaks: all pairs lo + 1 < hi with
+    arr[lo] < val < arr[hi] (flat table lo, hi, guess, ...)"""
+    out = []
+    for hi in range(len(arr)):
+        for lo in range(hi - 1):
+            if arr[lo] < val < arr[hi]:
+                try:
+                    g = lo + int((hi - lo) * (float(val - arr[lo]) / (arr[hi] - arr[lo])))
+                except (OverflowError, ZeroDivisionError, ValueError):
+                    continue
+                out += [lo, hi, g]
+    return out
+
+
+def _bits(x):
+    return struct.unpack("<Q", struct.pack("<d", x))[0]
+
+
 def _numbers(case):
     nums = []
 
@@ -565,7 +712,7 @@ def _numbers(case):
         add(case["vals"])
     else:
         add(case["edges"])
-        for f in case["fills"]:
+        for f in case.get("fills", []):
             add(f["c"].get("t", []))
             if "s" in f["c"]:
                 add(f["c"]["s"])
@@ -618,26 +765,59 @@ def model_requests(case):
     rk = _ranks(case)
     op = case["op"]
     if op == "bin1d":
-        arr = [rk(x) for x in case["arr"]]
-        return [{"op": "bin1d", "arr": arr, "val": rk(v), "g": [y for r in guess_path(v, case["arr"]) for y in r]}
-                for v in case["vals"]]
+        src = case["arr"]
+        arr = [rk(x) for x in src]
+        all_f = all(type(x) is float for x in src)
+        all_i = all(type(x) is int and abs(x) < 2 ** 62 for x in src)
+        reqs = []
+        for v in case["vals"]:
+            tab = guess_full(v, src) if case.get("full") else [y for r in guess_path(v, src) for y in r]
+            q = {"op": "bin1d", "arr": arr, "val": rk(v), "g": tab, "full": bool(case.get("full"))}
+            if all_f and type(v) is float:
+                q["arrf"] = [_bits(x) for x in src]
+                q["valf"] = _bits(v)
+            if all_i and type(v) is int and abs(v) < 2 ** 62:
+                q["arri"] = src
+                q["vali"] = v
+            reqs.append(q)
+        return reqs
     edges = case["edges"]
+    if op == "initbins":
+        return [{"op": "initbins", "edges": _medges(edges, rk), "init": _scaled(case["init"]), "deep": case["deep"]}]
     req = {"op": op, "edges": _medges(edges, rk), "bins": _mbins(case["bins"]), "init": _scaled(case["init"])}
+    axes = _valid_axes(edges)
     items = []
     for f in case["fills"]:
         mc, tab = _mfill(f, edges, rk)
         it = {"c": mc, "g": tab}
         if op == "hist":
             it["w"] = _scaled(f["w"])
+            xs = _proper(f, edges)
+            it["pc"] = _cell_of(xs, axes) if (axes is not None and xs is not None) else None
         else:
             it["ctx"] = f.get("ctx")
+        if op == "elem2":
+            items.extend({"reset": True} for _ in range(f.get("rb", 0)))
         items.append(it)
     if op == "hist":
         req["fills"] = items
-    else:
+    elif op == "elem":
         req["vals"] = items
         req["one"] = SCALE
+    else:
+        items.extend({"reset": True} for _ in range(case.get("ra", 0)))
+        req["ops"] = items
+        req["one"] = SCALE
+        req["mk"] = _mbins(case["mk"])
     return [req]
+
+
+def _proper(f, edges):
+    """components of a coordinate of the right form for these edges (None otherwise)"""
+    c = f["c"]
+    if isinstance(edges, list) and edges and all(isinstance(a, list) for a in edges):
+        return c["t"] if ("t" in c and len(c["t"]) == len(edges)) else None
+    return [c["s"]] if "s" in c else None
 
 
 def compare(case, res, replies):
@@ -646,11 +826,41 @@ def compare(case, res, replies):
         if "err" in m:
             return f"model driver error: {m['err']}"
     if op == "bin1d":
+        arr = case["arr"]
+        mono = len(arr) >= 1 and _strict(arr)
         for v, r, m in zip(case["vals"], res["r"], replies):
             mm = m["r"] if "r" in m else {"e": m["e"]}
+            where = f"get_bin_on_value_1d({v!r}, {arr!r})"
             if r != mm:
-                return f"get_bin_on_value_1d({v!r}, {case['arr']!r}): impl {r} vs model {mm}"
+                return f"{where}: impl {r} vs model {mm}"
+            # the executable predicates on the real float guesses
+            if len(arr) >= 1 and m["vis"] is not True:
+                return f"{where}: the float guess left [ind_min, ind_max] at a visited state (visitedInRange false)"
+            path = [y for t in guess_path(v, arr) for y in t]
+            if len(arr) >= 1 and m["trace"] != path:
+                return f"{where}: visited states/guesses: model {m['trace']} vs the search path {path}"
+            if case.get("full"):
+                tab = guess_full(v, arr)
+                py_ok = all(tab[i] <= tab[i + 2] <= tab[i + 1] for i in range(0, len(tab), 3))
+                if m["okat"] != py_ok or not py_ok:
+                    return f"{where}: GuessOKAt on the real float guesses: model {m['okat']}, Python {py_ok}"
+            if m["cnt"] != sum(1 for e in arr if e <= v) or m["inc"] != _strict(arr):
+                return f"{where}: countLE/StrictInc: model {m['cnt']}/{m['inc']}"
+            if "fr" in m:
+                tab = guess_full(v, arr) if case.get("full") else path
+                if m["fr"] != r or m["fvis"] is not True or m["fokat"] is not True:
+                    return (f"{where}: with Lean's Float evaluation of the guess: result {m['fr']}, visitedInRange "
+                            f"{m['fvis']}, GuessOKAt {m['fokat']} (impl {r})")
+                if m["fg"] != tab[2::3]:
+                    return f"{where}: Lean Float guesses {m['fg']} differ from the real guesses {tab[2::3]}"
+            if "ir" in m and mono and (m["ir"] != r or m["rr"] != r):
+                return f"{where}: with interpGuess / roundedGuess id: {m['ir']} / {m['rr']} (impl {r})"
         return None
+    if op == "initbins":
+        m = replies[0]
+        a = res.get("bins", {"e": res.get("e")})
+        b = m.get("bins", {"e": m.get("e")})
+        return None if a == b else f"init_bins({case['edges']!r}, {case['init']!r}, deepcopy={case['deep']}): impl {a} vs model {b}"
     m = replies[0]
     if "e" in res or "e" in m:
         if res.get("e") != m.get("e") or res.get("phase") != m.get("phase"):
@@ -683,13 +893,72 @@ def compare(case, res, replies):
         want_all = {"e": first_err} if first_err is not None else {"bins": res["bins"], "oor": res["oor"]}
         if m["all"] != want_all:
             return f"fillAll: impl {_short(want_all)} vs model {_short(m['all'])}"
-        return None
+        return _compare_spec(case, res, m["spec"])
     if op == "elem":
         for k in ("bins", "oor", "ctx"):
             if res[k] != m[k]:
                 return f"final {k}: impl {res[k]} vs model {m[k]}"
         return None
+    if op == "elem2":
+        for k in ("bins", "oor", "ctx", "fresh"):
+            if res[k] != m[k]:
+                return f"final {k}: impl {res[k]} vs model {m[k]}"
+        tot = _total(res["bins"]) + (_num(res["oor"]) or 0)
+        if m["tot"] != tot or m["ssum"] != tot:
+            return f"total / specSum: model {m['tot']} / {m['ssum']}, sum over the real bins + n_out_of_range {tot}"
+        return None
     raise ValueError(op)
+
+
+def _compare_spec(case, res, sp):
+    """the specification-side definitions (Model/C06Spec.lean), executed by the driver, against the real code and
+    independent Python references"""
+    edges = case["edges"]
+    axes = _valid_axes(edges)
+    if sp["valid"] != (axes is not None):
+        return f"ValidEdges: model {sp['valid']} for edges {edges!r}"
+    if sp["dim"] != res["dim"]:
+        return f"edgesDim: model {sp['dim']}, histogram.dim {res['dim']}"
+    if axes is None:
+        return None
+    shape = [len(a) - 1 for a in axes]
+    if sp["dims"] != shape:
+        return f"dimsOf: model {sp['dims']} vs {shape}"
+    wf = _well_shaped_sc(res["bins0"], shape)
+    if sp["wf0"] != wf:
+        return f"WF: model {sp['wf0']}, bins {res['bins0']} against shape {shape}: {wf}"
+    if sp["total0"] != _total(res["bins0"]):
+        return f"total of the initial bins: model {sp['total0']}"
+    sumw = 0
+    for i, (f, st, q) in enumerate(zip(case["fills"], res["steps"], sp["fills"])):
+        xs = _proper(f, edges)
+        if q["proper"] != (xs is not None):
+            return f"fill #{i}: Proper: model {q['proper']} for {f['c']}"
+        if xs is None:
+            continue
+        sumw += _scaled(f["w"])
+        ind = [_count_index(x, a) for x, a in zip(xs, axes)]
+        cell = _cell_of(xs, axes)
+        if q["ind"] != ind or q["cell"] != cell or q["inr"] != (cell is not None):
+            return f"fill #{i} {xs!r}: indices/cellOf?/InRange: model {q['ind']}/{q['cell']}/{q['inr']} vs {ind}/{cell}"
+        if cell is not None and q["pc_incell"] is not True:
+            return f"fill #{i} {xs!r}: InCell {cell}: model {q['pc_incell']}"
+        if wf and "e" in st:
+            return f"fill #{i} {xs!r}: a proper fill into a well-formed histogram raised {st['e']}"
+    if sp["sumw"] != sumw:
+        return f"sumW: model {sp['sumw']} vs {sumw}"
+    if wf:
+        if sp["sbins"] != res["bins"] or sp["soor"] != res["oor"]:
+            return (f"specFillAll: {sp['sbins']} / {sp['soor']} vs the real histogram {res['bins']} / {res['oor']}")
+        if sp["stotal"] != _total(res["bins"]):
+            return f"total: model {sp['stotal']}"
+    return None
+
+
+def _well_shaped_sc(b, shape):
+    if not shape:
+        return isinstance(b, int)
+    return isinstance(b, list) and len(b) == shape[0] and all(_well_shaped_sc(x, shape[1:]) for x in b)
 
 
 def _short(o):
@@ -770,6 +1039,8 @@ def oracle(case, res):
                 return (f"get_bin_on_value_1d({v!r}, {arr!r}) = {r}, but the number of edges not greater than the value, "
                         f"minus one, is {want}")
         return None
+    if op == "initbins":
+        return None            # correspondence only
     axes = _valid_axes(case["edges"])
     if axes is None:
         return None
@@ -777,15 +1048,20 @@ def oracle(case, res):
     shape = [len(a) - 1 for a in axes]
     if case["bins"] is not None and not _well_shaped(case["bins"], shape):
         return None
+    if op == "elem2":
+        if case["mk"] is not None and (case["bins"] is not None or not _well_shaped(case["mk"], shape)):
+            return None
     if "e" in res and res.get("phase") == "init":
-        if case["bins"] is not None and not flat and len(axes) == 1:
-            return None        # documented quirk of the shape test for nested one-dimensional edges; not part of C06
-        return f"histogram with strictly increasing edges {case['edges']!r} could not be created: {res}"
+        # (before the fix 8d715e5 this reported notes/C06_defect_1: nested one-dimensional edges with their own bins)
+        what = "" if case["bins"] is None else f" and bins {case['bins']!r} of the matching shape"
+        return f"histogram with strictly increasing edges {case['edges']!r}{what} could not be created: {res}"
     if "n_yield" in res:
         return f"Histogram.compute yielded {res['n_yield']} values"
     # reference computation, in exact scaled numbers
     if case["bins"] is not None:
         ref = _sc_nested(case["bins"])
+    elif case.get("mk") is not None:
+        ref = _sc_nested(case["mk"])
     else:
         ref = _sc_nested(_full_bins(shape, case["init"]))
     ref_oor = 0
@@ -846,6 +1122,43 @@ def oracle(case, res):
         if o is None or s + o != init_total + total_w:
             return (f"sum of all bins ({s / SCALE}) + n_out_of_range ({res['oor']}/{SCALE}) differs from the initial content "
                     f"({init_total / SCALE}) plus the total filled weight ({total_w / SCALE})")
+        return None
+    if op == "elem2":
+        if any(proper(f) is None for f in case["fills"]):
+            return None
+        if "e" in res:
+            return (f"Histogram element over edges {case['edges']!r} (bins {case['bins']!r}, make_bins {case['mk']!r}) "
+                    f"raised {res} in a history of proper fills and resets")
+        content0 = copy.deepcopy(ref)
+        n = 0
+        hist = []
+        for f in case["fills"]:
+            if f.get("rb", 0):
+                ref, ref_oor, n = copy.deepcopy(content0), 0, 0
+                hist.append("reset()" if f["rb"] == 1 else f"reset() x{f['rb']}")
+            xs = proper(f)
+            hist.append(f"fill({xs!r})" if len(xs) > 1 else f"fill({xs[0]!r})")
+            cell = _cell_of(xs, axes)
+            if cell is None:
+                ref_oor += SCALE
+            else:
+                _get(ref, cell[:-1])[cell[-1]] = _get(ref, cell) + SCALE
+            n += 1
+        if case.get("ra", 0):
+            ref, ref_oor, n = copy.deepcopy(content0), 0, 0
+            hist.append("reset()" if case["ra"] == 1 else f"reset() x{case['ra']}")
+        if res["bins"] != ref or res["oor"] != ref_oor:
+            start = (f"bins={case['bins']!r}" if case["bins"] is not None else
+                     f"make_bins -> {case['mk']!r}" if case["mk"] is not None else f"initial_value={case['init']!r}")
+            return (f"Histogram(edges={case['edges']!r}, {start}) after {', '.join(hist)}: bins / n_out_of_range "
+                    f"{_unsc_nested(res['bins'])} / {_unsc(res['oor'])}, but the initial content plus the values filled "
+                    f"since the last reset is {_unsc_nested(ref)} / {_unsc(ref_oor)} "
+                    f"(first difference at {_first_diff(res['bins'], ref)})")
+        s_, o = _total(res["bins"]), _num(res["oor"])
+        if o is None or s_ + o != _total(content0) + n * SCALE:
+            return f"element: sum of bins + n_out_of_range = {(s_ + (o or 0)) / SCALE}, {n} values since the last reset"
+        if not res.get("edges_same", True):
+            return f"edges changed by filling: {case['edges']!r}"
         return None
     if op == "elem":
         if any(proper(f) is None for f in case["fills"]):
@@ -910,6 +1223,8 @@ def _full_bins(shape, v):
 def nontrivial(case, res):
     if case["op"] == "bin1d":
         return any(guess_path(v, case["arr"]) for v in case["vals"])
+    if case["op"] == "initbins":
+        return True
     if "e" in res:
         return True
     axes = _valid_axes(case["edges"])
@@ -958,11 +1273,26 @@ def classify(case, res):
     if op == "bin1d":
         labs.add(f"bin1d:family:{case['fam']}")
         labs.add(f"bin1d:edges:{min(len(case['arr']), 13)}")
+        if case.get("full"):
+            labs.add("bin1d:GuessOKAt-on-all-states")
+        if all(type(x) is float for x in case["arr"]):
+            labs.add("bin1d:all-floats(Lean Float guess)")
+        if all(type(x) is int for x in case["arr"]):
+            labs.add("bin1d:all-ints(interpGuess)")
         if len(case["arr"]) >= 2:
             for v in case["vals"]:
                 labs |= {"bin1d:" + l for l in _branch_labels(v, case["arr"])}
         return sorted(labs)
+    if op == "initbins":
+        labs.add(f"initbins:deepcopy={case['deep']}:" + ("error:" + res["e"] if "e" in res else "ok"))
+        return sorted(labs)
     axes = _valid_axes(case["edges"])
+    if op == "elem2":
+        labs.add("elem2:" + ("bins+make_bins" if case["bins"] is not None and case["mk"] is not None else
+                             "bins" if case["bins"] is not None else "make_bins" if case["mk"] is not None else
+                             "initial_value=" + repr(case["init"])))
+        nres = sum(f.get("rb", 0) for f in case["fills"]) + case.get("ra", 0)
+        labs.add(f"elem2:resets={min(nres, 3)}")
     if "e" in res:
         labs.add(f"{op}:{res.get('phase')}-error:{res['e']}")
     if case.get("bad"):
@@ -971,7 +1301,8 @@ def classify(case, res):
         labs.add(f"{op}:invalid-edges")
         return sorted(labs)
     labs.add(f"{op}:dim={len(axes)}:{'flat' if axes is not case['edges'] else 'nested'}")
-    labs.add(f"{op}:{'given-bins' if case['bins'] is not None else 'init=' + repr(case['init'])}")
+    if op != "elem2":
+        labs.add(f"{op}:{'given-bins' if case['bins'] is not None else 'init=' + repr(case['init'])}")
     for fam in set(case["fam"].split("+")):
         labs.add(f"{op}:family:{fam}")
     for f in case["fills"]:
@@ -1016,9 +1347,13 @@ def shrink(case):
         for vs in _sublists(case["vals"]):
             yield dict(case, vals=vs)
         return
+    if op == "initbins":
+        return
     fs = case["fills"]
     for sub in _sublists(fs):
         yield dict(case, fills=sub)
+    if op == "elem2" and case.get("ra", 0) > 0:
+        yield dict(case, ra=case["ra"] - 1)
     if case.get("bins") is not None and _valid_axes(case["edges"]) is not None:
         yield dict(case, bins=None, init=0)
     if op == "hist" and len(fs) <= 3:
